@@ -1,9 +1,66 @@
 /- TwSpec.Driver — protocol entry for the executable specification oracles. -/
 import TwModel.Api
+import TwSpec.ExprSem
 
 namespace TwSpec
 open Tw
 
-def handleSpec (_fields : List String) : String := "NOSPEC"
+inductive STerm where
+  | atom (s : String)
+  | list (xs : List STerm)
+  deriving Inhabited
+
+partial def parseSTerms (cs : List Char) (acc : List STerm) : List STerm × List Char :=
+  match cs with
+  | [] => (acc.reverse, [])
+  | ' ' :: r => parseSTerms r acc
+  | ')' :: r => (acc.reverse, r)
+  | '(' :: r =>
+    let (inner, rest) := parseSTerms r []
+    parseSTerms rest (.list inner :: acc)
+  | _ =>
+    let a := cs.takeWhile fun c => c != ' ' && c != '(' && c != ')'
+    parseSTerms (cs.drop a.length) (.atom (String.ofList a) :: acc)
+
+def parseSTerm (s : String) : STerm :=
+  match (parseSTerms s.toList []).1 with
+  | [t] => t
+  | ts => .list ts
+
+def hexB (s : String) : Bytes := if s == "-" then [] else (ofHex s).getD []
+
+partial def toSExpr : STerm → SExpr
+  | .atom "n" => .nil
+  | .list [.atom "i", .atom v] => .int (Int64.ofInt (v.toInt?.getD 0))
+  | .list [.atom "f", .atom v] =>
+    .float (Float.ofBits (UInt64.ofNat (((ofHex v).getD []).foldl (fun a c => a * 256 + c) 0)))
+  | .list [.atom "s", .atom v] => .str (hexB v)
+  | .list [.atom "b", .atom v] => .bool (v == "1")
+  | .list [.atom "v", .atom v] => .var (hexB v)
+  | .list [.atom "neg", e] => .neg (toSExpr e)
+  | .list [.atom "not", e] => .not (toSExpr e)
+  | .list [.atom "inc", e] => .inc (toSExpr e)
+  | .list [.atom "dec", e] => .dec (toSExpr e)
+  | .list [.atom "bin", .atom op, l, r] => .bin (hexB op) (toSExpr l) (toSExpr r)
+  | .list [.atom "tern", c, a, bb] => .tern (toSExpr c) (toSExpr a) (toSExpr bb)
+  | .list [.atom "idx", l, i] => .idx (toSExpr l) (toSExpr i)
+  | .list [.atom "dot", .atom k, l] => .dot (toSExpr l) (hexB k)
+  | .list (.atom "call" :: .atom f :: recv :: args) => .call (toSExpr recv) (hexB f) (args.map toSExpr)
+  | .list (.atom "arr" :: es) => .arr (es.map toSExpr)
+  | .list (.atom "obj" :: kvs) => .obj (pairs kvs)
+  | _ => .nil
+where
+  pairs : List STerm → List (Bytes × SExpr)
+    | .atom k :: v :: r => (hexB k, toSExpr v) :: pairs r
+    | _ => []
+
+/-- data terms are parsed by the main driver; the spec handler receives the environment -/
+def specExpr (tree : String) (env : Option Env) : String :=
+  match env with
+  | none => "ERR"
+  | some e =>
+    match seval e (toSExpr (parseSTerm tree)) with
+    | some v => "OK " ++ toHex v.toStr
+    | none => "ERR"
 
 end TwSpec
